@@ -523,6 +523,30 @@ func (fc *fileCtx) walk(opt Options) {
 					}
 				}
 			}
+			if opt.RenameMain {
+				// package main of the front-end: loader, exit and fatal seams
+				if sel, ok := x.Fun.(*ast.SelectorExpr); ok {
+					if f, ok := fc.info.Uses[sel.Sel].(*types.Func); ok && f.Pkg() != nil && f.Type().(*types.Signature).Recv() == nil {
+						full := f.Pkg().Path() + "." + f.Name()
+						switch {
+						case full == "github.com/go-toolsmith/pkgload.LoadPackages" || full == "golang.org/x/tools/go/packages.Load":
+							fc.site("loader", x.Pos(), fc.funcName(stack))
+							fc.insert(sel.Pos(), "gcsimrt.LoadSeam(")
+							fc.insertCloser(sel.End(), ")")
+						case full == "os.Exit":
+							fc.site("exit", x.Pos(), fc.funcName(stack))
+							orig := string(fc.src[fc.off(sel.Pos()):fc.off(sel.End())])
+							fc.replace(sel.Pos(), sel.End(), "gcsimrt.Exit")
+							fc.tail = append(fc.tail, "var _ = "+orig)
+						case full == "log.Fatalf" || full == "log.Fatal" || full == "log.Fatalln":
+							fc.site("exit", x.Pos(), fc.funcName(stack))
+							orig := string(fc.src[fc.off(sel.Pos()):fc.off(sel.End())])
+							fc.replace(sel.Pos(), sel.End(), "gcsimrt."+f.Name())
+							fc.tail = append(fc.tail, "var _ = "+orig)
+						}
+					}
+				}
+			}
 			if opt.FSSeam {
 				if sel, ok := x.Fun.(*ast.SelectorExpr); ok {
 					if f, ok := fc.info.Uses[sel.Sel].(*types.Func); ok && f.Pkg() != nil {
